@@ -55,8 +55,9 @@ def gen_tree(rng, mx, mn):
     all_empty = rng.random() < 0.06
     for i in range(nfiles):
         depth = rng.choice([0, 0, 1, 2])
-        parts = [rng.choice(NAMES) + str(rng.randint(0, 3)) for _ in range(depth)]
-        name = rng.choice(NAMES) + str(i)
+        # the distinguishing digit goes in front half of the time, so that names also END in what NAMES end in (.tmp, .txt, ...)
+        parts = [(lambda n_, d_: n_ + d_ if rng.random() < 0.5 else d_ + n_)(rng.choice(NAMES), str(rng.randint(0, 3))) for _ in range(depth)]
+        name = (lambda n_, d_: n_ + d_ if rng.random() < 0.5 else d_ + n_)(rng.choice(NAMES), str(i))
         p = tuple(parts + [name])
         if p in used or any(p[:k] in used for k in range(1, len(p))) or any(q[:len(p)] == p for q in used):
             continue
